@@ -952,7 +952,10 @@ class Message(ABC):
                 return value
 
             value = self._get_field_default(name)
-            super().__setattr__(name, value)
+            if isinstance(value, (Message, list, dict)):
+                # Mutable defaults are kept so that they can be filled in place;
+                # everything else stays unset (a read must not look like a set).
+                super().__setattr__(name, value)
             return value
 
     def __setattr__(self, attr: str, value: Any) -> None:
@@ -2045,9 +2048,19 @@ class Message(ABC):
         if value is PLACEHOLDER:
             # never assigned, or reset because another member of its oneof was set
             return False
-        return not (
-            self._betterproto.meta_by_field_name[name].optional and value is None
-        )
+        meta = self._betterproto.meta_by_field_name[name]
+        if meta.optional:
+            return value is not None
+        if meta.group is not None:
+            return self._group_current.get(meta.group) == name
+        # A default created by merely reading the field does not count: a plain
+        # sub-message is present when its own flag says so, a container when it
+        # holds something.
+        if isinstance(value, Message):
+            return value._serialized_on_wire or bool(value)
+        if isinstance(value, (list, dict)):
+            return bool(value)
+        return not (meta.wraps and value is None)
 
     @classmethod
     def _validate_field_groups(cls, values):
